@@ -66,7 +66,7 @@ chk("C04", "chainsim", "exploration",
     "PARTIAL by design: only types that cross a simulated seam are covered (signed blocks and everything nested in them, beacon states and everything nested in them, the seven gossip message types, phase0..deneb); the 'every exported type x every value' part of the statement is a pure function of the value and is not decided by this technique; Electra, light-client and pending-request types never ride a seam here. No independent SSZ codec: the reference is agreement between the struct form and the tree-view form.",
     SIM + "seam monitors on a simulated network + injected stream faults (short/err reads, failing writer, torn frames, bad offsets)", "DESIGN.md section 6 C04")
 chk("C05", "chainsim", "exploration",
-    CHAIN + "C05 monitors: after transitions on every node (mutation histories on structurally shared trees: resets at wrap-around of small vectors, participation rotation, registry appends, sibling copies advanced alternately) the state's tree root == struct-form root of the same content == root of a view rebuilt from its own bytes; block header root == envelope root.",
+    CHAIN + "C05 monitors: after transitions on every node (mutation histories on structurally shared trees: resets at wrap-around of small vectors, participation rotation, registry appends, sibling copies advanced alternately) the state's tree root == struct-form root of the same content == root of a view rebuilt from its own bytes; for every signed block (5 forks) and every gossip message that crosses the wire (attestation, exit, proposer/attester slashing, sync message, signed contribution-and-proof) the tree-view TYPE decodes the struct form's bytes, has the same root, re-encodes identically and agrees on fixed/variable size; block header root == envelope root.",
     "PARTIAL: three-way agreement is between zrnt's tree-view merkleization, zrnt's struct-form merkleization and a rebuild from bytes; an independent merkleizer of the SSZ spec is not part of this revision (refspec compares state roots through the struct form only). Types that never ride a seam are not covered.",
     SIM + "stale-cache detection by rebuild-from-scratch along simulated mutation histories", "DESIGN.md section 6 C05")
 chk("C08", "chainsim", "exploration",
